@@ -294,6 +294,17 @@ pub mod tables {
             Ok(out)
         }
 
+        /// Footer handles (metaindex, index) and data block handles as (offset, size).
+        #[allow(clippy::type_complexity)]
+        pub fn handles(&self) -> ((u64, u64), (u64, u64), Vec<(u64, u64)>) {
+            self.0.verif_handles()
+        }
+
+        /// Whether the block at (offset, size) reads back (bypassing the block cache).
+        pub fn block_readable(&self, offset: u64, size: u64) -> bool {
+            self.0.verif_block_readable(offset, size)
+        }
+
         pub fn filter_may_match(&self, block_offset: u64, user: &[u8]) -> Option<bool> {
             self.0.verif_filter_may_match(block_offset, user)
         }
